@@ -171,6 +171,37 @@ func firstZeroCut(sl *ssa.Slice, temp ssa.Value) bool {
 	return true
 }
 
+// indexOutcome: path p has established that the search result idx is found (>= 0) resp. not found (< 0).
+func indexOutcome(p *paths.Path, idx *ssa.Call, found bool) bool {
+	for _, e := range p.Events {
+		if e.Kind != paths.EvBranch {
+			continue
+		}
+		bo, ok := e.Cond.(*ssa.BinOp)
+		if !ok {
+			continue
+		}
+		x, y, op := e.Resolve(bo.X), e.Resolve(bo.Y), bo.Op
+		if y == ssa.Value(idx) {
+			x, y = y, x
+			op = map[token.Token]token.Token{token.LSS: token.GTR, token.GTR: token.LSS, token.LEQ: token.GEQ, token.GEQ: token.LEQ, token.EQL: token.EQL, token.NEQ: token.NEQ}[op]
+		}
+		k, isK := constInt(y)
+		if x != ssa.Value(idx) || !isK {
+			continue
+		}
+		if !e.Taken {
+			op = map[token.Token]token.Token{token.LSS: token.GEQ, token.GEQ: token.LSS, token.GTR: token.LEQ, token.LEQ: token.GTR, token.EQL: token.NEQ, token.NEQ: token.EQL}[op]
+		}
+		isFound := (op == token.GTR && k == -1) || (op == token.GEQ && k == 0) || (op == token.NEQ && k == -1)
+		isNot := (op == token.LSS && k == 0) || (op == token.LEQ && k == -1) || (op == token.EQL && k == -1)
+		if (found && isFound) || (!found && isNot) {
+			return true
+		}
+	}
+	return false
+}
+
 // eventOf: the event of instruction ins on path p.
 func eventOf(p *paths.Path, ins ssa.Instruction) (paths.Event, bool) {
 	for _, e := range p.Events {
@@ -553,6 +584,7 @@ func shapeRules(c *core.Ctx) {
 		n := fn.Params[1]
 		reads := callsTo(fn, "bytes", "Buffer.Read")
 		if len(reads) == 0 && name != "ReadCStringN" {
+			// (also: a reader that hands on to a sibling reader on the same receiver)
 			// the read lives in an unexported helper of the reader: decided by the all-paths rule below (fresh buffer of n octets
 			// included)
 			c.OK(rule, key, pos, "reads through a helper: see "+key+"#paths")
@@ -574,9 +606,11 @@ func shapeRules(c *core.Ctx) {
 						continue
 					}
 					cal := call.Call.StaticCallee()
-					if cal.Pkg == fn.Pkg && cal.Signature.Recv() != nil && cal.Object() != nil && !cal.Object().Exported() && len(call.Call.Args) == 2 && call.Call.Args[1] == ssa.Value(n) {
+					if cal.Pkg == fn.Pkg && cal.Signature.Recv() != nil && cal.Object() != nil && len(call.Call.Args) == 2 && call.Call.Args[0] == ssa.Value(fn.Params[0]) && call.Call.Args[1] == ssa.Value(n) {
 						if ex := extractOf(call, 0); ex != nil {
 							temp, ok = ex, true
+						} else if cal.Signature.Results().Len() == 1 {
+							temp, ok = call, true // a sibling reader that returns the octets themselves
 						}
 					}
 				}
@@ -598,7 +632,8 @@ func shapeRules(c *core.Ctx) {
 						if !isK || bo.X != ssa.Value(trim[0]) {
 							continue
 						}
-						if (bo.Op == token.GTR && k == -1) || (bo.Op == token.GEQ && k == 0) || (bo.Op == token.NEQ && k == -1) {
+						if (bo.Op == token.GTR && k == -1) || (bo.Op == token.GEQ && k == 0) || (bo.Op == token.NEQ && k == -1) ||
+							(bo.Op == token.LSS && k == 0) || (bo.Op == token.LEQ && k == -1) || (bo.Op == token.EQL && k == -1) {
 							for _, rr := range *trim[0].Referrers() {
 								if sl, isS := rr.(*ssa.Slice); isS && sl.X == temp && sl.Low == nil && sl.High == ssa.Value(trim[0]) {
 									cut = true
@@ -641,9 +676,32 @@ func shapeRules(c *core.Ctx) {
 		}
 		n := fn.Params[1]
 		inline := func(call *ssa.Call, callee *ssa.Function) bool {
-			return callee.Pkg == fn.Pkg && callee.Signature.Recv() != nil && len(callee.Blocks) > 0 && callee.Object() != nil && !callee.Object().Exported()
+			// helpers of the reader, and sibling readers called on the same receiver (ReadCStringN through ReadNBytes)
+			return callee.Pkg == fn.Pkg && callee.Signature.Recv() != nil && len(callee.Blocks) > 0 && callee.Object() != nil &&
+				(!callee.Object().Exported() || (len(call.Call.Args) > 0 && call.Call.Args[0] == ssa.Value(fn.Params[0])))
 		}
-		ps, err := paths.Enumerate(fn, paths.Config{Inline: inline, MaxDepth: 2, SkipPureLoops: true})
+		decideNil := func(w *paths.Walker, cond ssa.Value) int {
+			subj, neq, ok := nilTest(cond)
+			if !ok {
+				return 0
+			}
+			switch rv := w.Resolve(subj).(type) {
+			case *ssa.Const:
+				if rv.IsNil() {
+					if neq {
+						return -1
+					}
+					return 1
+				}
+			case *ssa.MakeSlice:
+				if neq {
+					return 1
+				}
+				return -1
+			}
+			return 0
+		}
+		ps, err := paths.Enumerate(fn, paths.Config{Inline: inline, MaxDepth: 3, SkipPureLoops: true, Decide: decideNil})
 		if err != nil {
 			c.Unknown(rule, key, pos, "path enumeration failed: "+err.Error())
 			continue
@@ -763,12 +821,26 @@ func shapeRules(c *core.Ctx) {
 			}
 			v = lastEv.Resolve(v)
 			okRes := v == temp
+			if okRes && name == "ReadCStringN" {
+				// the whole buffer is returned only where no zero octet was found
+				for _, e := range p.Events {
+					if call, isC := e.Instr.(*ssa.Call); isC && e.Kind == paths.EvInstr && calleeName(call) == "bytes.IndexByte" {
+						if !indexOutcome(p, call, false) {
+							problems = append(problems, "the uncut buffer is returned on a path where the zero octet may have been found: the value is not cut at the first 0x00")
+						}
+					}
+				}
+			}
 			if sl, ok := v.(*ssa.Slice); ok && name == "ReadCStringN" && lastEv.Resolve(sl.X) == temp && sl.Low == nil {
 				sl = resolvedSliceBase(sl, temp)
 			}
 			if sl, ok := v.(*ssa.Slice); ok && name == "ReadCStringN" && (sl.X == temp || lastEv.Resolve(sl.X) == temp) && sl.Low == nil {
 				if call, ok := sl.High.(*ssa.Call); ok && calleeName(call) == "bytes.IndexByte" {
 					okRes = true
+					// ... and the cut is made only where the zero octet was found on this path
+					if !indexOutcome(p, call, true) {
+						problems = append(problems, "the value is cut at the search result on a path where the zero octet was not found (index -1)")
+					}
 				}
 				if firstZeroCut(sl, temp) {
 					okRes = true
